@@ -177,7 +177,9 @@ def hdSession (f : List String) : String :=
     let hdr := FrameW.le32 Gen.frameMagic ++ desc
     let right := (XXH.checksumZero desc.toList).toNat / 256 % 256
     let cks : List Nat := if mode == "t" then List.range 256
-      else [right, Nat.xor right 1, Nat.xor right 128, (right + 1) % 256]
+      else
+        let base := [right, Nat.xor right 1, Nat.xor right 128, (right + 1) % 256]
+        base ++ ([0, 255].filter (fun c => !base.contains c))
     let tail : Array UInt8 := #[0, 0, 0, 0] ++ (if flg / 4 % 2 = 1 then #[0x05, 0x5d, 0xcc, 0x02] else #[])
     let (acc, wrong, size) := cks.foldl (fun (acc, wrong, size) c =>
       let h := hdr.push c.toUInt8
